@@ -1,13 +1,13 @@
 CONSTANTS
   Server = {1, 2, 3}
-  MaxTerm = 2
-  MaxProposals = 1
-  MaxCrashes = 1
-  MaxDrops = 1
+  MaxTerm = 1
+  MaxProposals = 0
+  MaxCrashes = 0
+  MaxDrops = 0
   MaxDups = 0
   MaxHeartbeats = 0
-  MaxLog = 3
-  MaxNet = 4
+  MaxLog = 2
+  MaxNet = 6
   MaxEnts = 0
   SimDepth = 0
   W_CommitAnyTerm = FALSE
@@ -16,10 +16,9 @@ CONSTANTS
   W_NoPersistVote = FALSE
   W_AppendAlwaysTruncates = FALSE
   W_HeartbeatCommitUnbounded = FALSE
-  W_QuorumMinusOne = FALSE
+  W_QuorumMinusOne = TRUE
 INIT Init
 NEXT Next
 CONSTRAINT NetBound
 VIEW view
-INVARIANTS ElectionSafety LogMatching StateMachineSafety LeaderCompleteness CommitWithinLog PersistedMatchesVolatile
-PROPERTY HardStateMonotonic
+INVARIANT EmitAttack
